@@ -1,100 +1,135 @@
 import Model.Paging
-/-! helper lemmas for C15 -/
+/-! helper lemmas for C15: the model (`run`, `manual`) against the specification (`Spec.*`) for every
+    script, and the specification evaluated on well-formed page lists -/
 namespace Paging
-variable {ρ ε : Type}
 
-theorem script_ok (pages : List (List ρ)) (e : ε) (req : Option Nat) (i : Nat) (hreq : req.getD 0 = i)
-    (hi : i < pages.length) :
-    script pages none e req = .ok (pages[i], if i + 1 < pages.length then some (i + 1) else none) := by
-  simp [script, hreq, hi]
+theorem request_eq (q : Qry) : request q = template q (firstState q) := by
+  simp [request, template, firstState]
 
-/-- consuming the scripted cluster from page `i` on: all remaining rows in order, one request per
-    following page carrying exactly the previous page's state, no error, nothing after the last page -/
-theorem drain_script (pages : List (List ρ)) (e : ε) (pp : Nat → Nat) :
-    ∀ k i, i + k = pages.length → 0 < k → ∀ f, k ≤ f → ∀ req : Option Nat, req.getD 0 = i →
-      (drain (script pages none e) pp f (executeQuery (script pages none e) pp false req)).rows = (pages.drop i).flatten ∧
-      (drain (script pages none e) pp f (executeQuery (script pages none e) pp false req)).reqs
-          = (List.range' (i + 1) (k - 1)).map some ∧
-      (drain (script pages none e) pp f (executeQuery (script pages none e) pp false req)).err = none := by
-  intro k
-  induction k with
-  | zero => intro i _ h; omega
-  | succ k ih =>
-    intro i hik _ f hf req hreq
-    have hi : i < pages.length := by omega
-    obtain ⟨f', rfl⟩ : ∃ f', f = f' + 1 := ⟨f - 1, by omega⟩
-    have hdrop : pages.drop i = pages[i] :: pages.drop (i + 1) := List.drop_eq_getElem_cons hi
-    by_cases hlast : i + 1 < pages.length
-    · -- more pages
-      have hk : 0 < k := by omega
-      have hex : executeQuery (script pages none e) pp false req =
-          { err := none, pos := 0, rows := pages[i], next := some { req := i + 1, pos := clampPos pp pages[i].length } } := by
-        simp [executeQuery, script_ok pages e req i hreq hi, hlast]
-      have ih' := ih (i + 1) (by omega) hk f' (by omega) (some (i + 1)) rfl
-      rw [hex]
-      simp only [drain, List.drop_zero]
-      refine ⟨?_, ?_, ih'.2.2⟩
-      · rw [ih'.1, hdrop, List.flatten_cons]
-      · rw [ih'.2.1]
-        have : k + 1 - 1 = (k - 1) + 1 := by omega
-        rw [this, List.range'_succ, List.map_cons]
-    · -- last page
-      have hk : k = 0 := by omega
-      subst hk
-      have hex : executeQuery (script pages none e) pp false req =
-          { err := none, pos := 0, rows := pages[i], next := none } := by
-        simp [executeQuery, script_ok pages e req i hreq hi, hlast]
-      rw [hex]
-      have hd1 : pages.drop (i + 1) = [] := List.drop_eq_nil_of_le (by omega)
-      simp [drain, hdrop, hd1]
+theorem template_next (q : Qry) (s : Bytes) : template { q with pageState := s } = template q := by
+  funext st; simp [template]
 
-theorem script_fail (pages : List (List ρ)) (e : ε) (j : Nat) (req : Option Nat) (hreq : req.getD 0 = j) :
-    script pages (some j) e req = .error e := by
-  simp [script, hreq]
+theorem firstState_next (q : Qry) (s : Bytes) (hs : s ≠ []) : firstState { q with pageState := s } = some s := by
+  have : 0 < s.length := List.length_pos_iff.2 hs
+  simp [firstState, this]
 
-theorem script_ok' (pages : List (List ρ)) (e : ε) (j : Nat) (req : Option Nat) (i : Nat) (hreq : req.getD 0 = i)
-    (hi : i < pages.length) (hij : i ≠ j) :
-    script pages (some j) e req = .ok (pages[i], if i + 1 < pages.length then some (i + 1) else none) := by
-  have : ¬ (j = i) := fun h => hij h.symm
-  simp [script, hreq, hi, this]
+theorem prep_eq (c : Bool) (q : Qry) : prep c q = if q.prepared && !c then [Req.prepare] else [] := rfl
 
-/-- a failing fetch of page `j`: the rows of the pages before it, then the error -/
-theorem drain_script_fail (pages : List (List ρ)) (e : ε) (pp : Nat → Nat) (j : Nat) (hj : j < pages.length) :
-    ∀ k i, i + k = j → ∀ f, k + 1 ≤ f → ∀ req : Option Nat, req.getD 0 = i →
-      (drain (script pages (some j) e) pp f (executeQuery (script pages (some j) e) pp false req)).rows
-          = ((pages.take j).drop i).flatten ∧
-      (drain (script pages (some j) e) pp f (executeQuery (script pages (some j) e) pp false req)).reqs
-          = (List.range' (i + 1) k).map some ∧
-      (drain (script pages (some j) e) pp f (executeQuery (script pages (some j) e) pp false req)).err = some e := by
-  intro k
-  induction k with
-  | zero =>
-    intro i hik f hf req hreq
-    obtain ⟨f', rfl⟩ : ∃ f', f = f' + 1 := ⟨f - 1, by omega⟩
-    have hij : i = j := by omega
-    subst hij
-    have hex : executeQuery (script pages (some i) e) pp false req =
-        { err := some e, pos := 0, rows := [], next := none } := by
-      simp [executeQuery, script_fail pages e i req hreq]
-    rw [hex]
-    have : (pages.take i).drop i = [] := List.drop_eq_nil_of_le (by simp; omega)
-    simp [drain, this]
-  | succ k ih =>
-    intro i hik f hf req hreq
-    obtain ⟨f', rfl⟩ : ∃ f', f = f' + 1 := ⟨f - 1, by omega⟩
-    have hi : i < pages.length := by omega
-    have hlast : i + 1 < pages.length := by omega
-    have hex : executeQuery (script pages (some j) e) pp false req =
-        { err := none, pos := 0, rows := pages[i], next := some { req := i + 1, pos := clampPos pp pages[i].length } } := by
-      simp [executeQuery, script_ok' pages e j req i hreq hi (by omega), hlast]
-    have ih' := ih (i + 1) (by omega) f' (by omega) (some (i + 1)) rfl
-    have hit : i < (pages.take j).length := by simp; omega
-    have hdrop : (pages.take j).drop i = pages[i] :: (pages.take j).drop (i + 1) := by
-      rw [List.drop_eq_getElem_cons hit, List.getElem_take]
-    rw [hex]
-    simp only [drain, List.drop_zero]
-    refine ⟨?_, ?_, ih'.2.2⟩
-    · rw [ih'.1, hdrop, List.flatten_cons]
-    · rw [ih'.2.1, List.range'_succ, List.map_cons]
+/-- rows and final error of the model are the specification's, for EVERY script (empty pages, empty
+    paging states, failures and UNPREPARED anywhere), every prefetch position, cached or not -/
+theorem run_rows_err (pp : Nat → Nat) : ∀ (script : List Reply) (c : Bool) (q : Qry), q.disableAutoPage = false →
+    (run pp script c q).rows = Spec.rows script ∧ (run pp script c q).err = Spec.err script := by
+  intro script
+  induction script with
+  | nil => intro c q _; simp [run, Spec.rows, Spec.err]
+  | cons r rest ih =>
+    intro c q hq
+    cases r with
+    | unprepared => simpa [run, Spec.rows, Spec.err] using ih false q hq
+    | fail f => simp [run, errIter, Spec.rows, Spec.err]
+    | page rows st =>
+      cases st with
+      | none => simp [run, pageIter, Spec.rows, Spec.err]
+      | some s =>
+        have h := ih true { q with pageState := s } hq
+        rw [hq] at h
+        simp [run, pageIter, hq, Spec.rows, Spec.err, h.1, h.2]
+
+/-- the request sequence of the model is the specification's whenever no paging state in the script
+    is present-but-empty -/
+theorem run_reqs (pp : Nat → Nat) : ∀ (script : List Reply) (c : Bool) (q : Qry), q.disableAutoPage = false →
+    NoEmptyState script →
+    (run pp script c q).reqs = Spec.reqs (template q) q.prepared script (!c) (firstState q) := by
+  intro script
+  induction script with
+  | nil => intro c q _ _; simp [run, Spec.reqs, prep_eq, request_eq]
+  | cons r rest ih =>
+    intro c q hq hne
+    cases r with
+    | unprepared =>
+      have h := ih false q hq (by simpa [NoEmptyState] using hne)
+      simp [run, Spec.reqs, prep_eq, request_eq, h]
+    | fail f => simp [run, Spec.reqs, prep_eq, request_eq]
+    | page rows st =>
+      cases st with
+      | none => simp [run, pageIter, Spec.reqs, prep_eq, request_eq]
+      | some s =>
+        have hs : s ≠ [] ∧ NoEmptyState rest := by simpa [NoEmptyState] using hne
+        have h := ih true { q with pageState := s } hq hs.2
+        rw [template_next, firstState_next q s hs.1] at h
+        simp only [Bool.not_true] at h
+        rw [hq] at h
+        simp [run, pageIter, hq, Spec.reqs, prep_eq, request_eq, h]
+
+/-- the manual paging loop (one Iter per page, resumed from PageState()) against the specification -/
+theorem manual_spec (pp : Nat → Nat) : ∀ (script : List Reply) (c : Bool) (q : Qry), NoEmptyState script →
+    (manual pp script c q).rows = Spec.rows script ∧ (manual pp script c q).err = Spec.err script ∧
+    (manual pp script c q).reqs = Spec.reqs (template q) q.prepared script (!c) (firstState q) := by
+  intro script
+  induction script with
+  | nil => intro c q _; simp [manual, Spec.rows, Spec.err, Spec.reqs, prep_eq, request_eq]
+  | cons r rest ih =>
+    intro c q hne
+    cases r with
+    | unprepared =>
+      have h := ih false q (by simpa [NoEmptyState] using hne)
+      simp [manual, Spec.rows, Spec.err, Spec.reqs, prep_eq, request_eq, h.1, h.2.1, h.2.2]
+    | fail f => simp [manual, Spec.rows, Spec.err, Spec.reqs, prep_eq, request_eq]
+    | page rows st =>
+      cases st with
+      | none => simp [manual, pageIter, Spec.rows, Spec.err, Spec.reqs, prep_eq, request_eq]
+      | some s =>
+        have hs : s ≠ [] ∧ NoEmptyState rest := by simpa [NoEmptyState] using hne
+        have hl : ¬ s.length = 0 := by
+          intro h0; exact hs.1 (List.length_eq_zero_iff.1 h0)
+        have h := ih true { q with pageState := s } hs.2
+        rw [template_next, firstState_next q s hs.1] at h
+        simp only [Bool.not_true] at h
+        simp [manual, pageIter, hl, Spec.rows, Spec.err, Spec.reqs, prep_eq, request_eq, h.1, h.2.1, h.2.2]
+
+/-! ### the specification on well-formed page lists -/
+
+/-- `k` pages with has_more_pages (rows, paging state), as replies -/
+def morePages (pages : List (List Int × Bytes)) : List Reply := pages.map (fun p => .page p.1 (some p.2))
+
+theorem noEmpty_more (pages : List (List Int × Bytes)) (tail : List Reply)
+    (h : ∀ p ∈ pages, p.2 ≠ []) (ht : NoEmptyState tail) : NoEmptyState (morePages pages ++ tail) := by
+  induction pages with
+  | nil => simpa [morePages] using ht
+  | cons p ps ih =>
+    have h1 : p.2 ≠ [] := h p (by simp)
+    have h2 := ih (fun x hx => h x (by simp [hx]))
+    simpa [morePages, NoEmptyState, h1] using h2
+
+theorem spec_rows_more (pages : List (List Int × Bytes)) (tail : List Reply) :
+    Spec.rows (morePages pages ++ tail) = (pages.map (·.1)).flatten ++ Spec.rows tail := by
+  induction pages with
+  | nil => simp [morePages]
+  | cons p ps ih => simpa [morePages, Spec.rows, List.append_assoc] using ih
+
+theorem spec_err_more (pages : List (List Int × Bytes)) (tail : List Reply) :
+    Spec.err (morePages pages ++ tail) = Spec.err tail := by
+  induction pages with
+  | nil => simp [morePages]
+  | cons p ps ih => simpa [morePages, Spec.err] using ih
+
+/-- requests for `k` pages followed by a reply that ends the iteration (a last page or a failure):
+    an optional PREPARE, the first request, then one request per page carrying exactly that page's
+    state — `k + 1` requests, nothing else -/
+theorem spec_reqs_more (mk : Option Bytes → Req) (prepared : Bool) (pages : List (List Int × Bytes))
+    (last : Reply) (tail : List Reply) (hl : (∃ r, last = .page r none) ∨ (∃ f, last = .fail f)) :
+    ∀ (needPrep : Bool) (cur : Option Bytes),
+    Spec.reqs mk prepared (morePages pages ++ last :: tail) needPrep cur
+      = (if prepared && needPrep then [Req.prepare] else []) ++ (cur :: pages.map (fun p => some p.2)).map mk := by
+  induction pages with
+  | nil =>
+    intro needPrep cur
+    rcases hl with ⟨r, rfl⟩ | ⟨f, rfl⟩ <;> simp [morePages, Spec.reqs]
+  | cons p ps ih =>
+    intro needPrep cur
+    have h := ih false (some p.2)
+    simp only [Bool.and_false, Bool.false_eq_true, if_false, List.nil_append] at h
+    simp only [morePages] at h
+    simp [morePages, Spec.reqs, h]
 
 end Paging
